@@ -13,6 +13,7 @@ import pwd
 import re
 import subprocess
 
+from vlib import optuse
 from vlib.common import HARNESS, REPO, VERIF
 
 LEVEL = "proof"
@@ -432,6 +433,8 @@ def load_replay(ctx):
         c.wspec = k["wspec"]
     if k.get("use"):
         c.use = k["use"]
+    if k.get("ckind"):
+        c.ckind = k["ckind"]
     c.group = "replay"
     ctx.log("replay of %s: %s env %s argv %s (signature %s)" % (os.path.basename(ctx.replay), c.pers, c.env, c.argv(),
                                                              rp.get("signature")))
@@ -789,6 +792,21 @@ def run(ctx):
         ctx.log("code under test contains repairs:", cov["variant_detected"], "rcmd modules:", real.avail)
         quick = ctx.quick()
         rp_case, rp_kind = load_replay(ctx)
+        # (U2) the connect time-out (real rsh module against a scripted peer that answers late / never) and the remote pdcp
+        # path (pcptest.so, uid 1000) WHERE THEY ARE USED: mostly waiting, so the group is started now and collected at the end
+        peer = bench = None
+        try:
+            peer = optuse.SlowPeer()
+        except OSError as e:
+            ctx.notes.append("connect time-out in use: skipped (%s)" % e)
+            dist["use_connect"] = "skipped (%s)" % e
+        bench = optuse.PathBench(ctx, repo)
+        if not bench.ok:
+            ctx.notes.append("remote pdcp path in use: skipped (%s)" % bench.why)
+            dist["use_path"] = "skipped (%s)" % bench.why
+        u2only = rp_case if (rp_case is not None and rp_kind == "use" and getattr(rp_case, "use", "") in ("connect", "path")) else None
+        u2pool = concurrent.futures.ThreadPoolExecutor(max_workers=1)
+        u2fut = u2pool.submit(optuse.run_all, real, Case, peer, bench, u2only) if (rp_case is None or u2only is not None) else None
         cases = []
         # (A) single-setting sweeps
         for letter in "ftu":
@@ -1207,7 +1225,7 @@ def run(ctx):
             os.chmod(sp_, 0o755)
         ucases, ugroups = gen_use_cases(real, rng, quick)
         if rp_case is not None:
-            ucases, ugroups = ([rp_case] if rp_kind == "use" else []), []
+            ucases, ugroups = ([rp_case] if rp_kind == "use" and u2only is None else []), []
         # (the commands of this group mostly sleep: a wider pool keeps the group at about the length of its longest case)
         with concurrent.futures.ThreadPoolExecutor(max_workers=24) as ex:
             ures = list(ex.map(lambda ic: run_use_case(real, ctx, ic[1], ic[0]), enumerate(ucases)))
@@ -1274,10 +1292,21 @@ def run(ctx):
                 ctx.offender("order-dependent:in-use", "the same options in another order contact the targets as other users: %s -> %s, "
                              "%s -> %s" % (c1.argv()[:-4], dict(k1[1]), c2.argv()[:-4], dict(k2[1])),
                              case_record(ctx, c2, c2.argv(), k2[0], b"", "use", use="user", observed=dict(k2[1])))
+        # (U2) collected: the connect time-out and the remote pdcp path in use
+        u2cases = []
+        if u2fut is not None:
+            cres, pres = u2fut.result()
+            u2pool.shutdown()
+            if peer:
+                u2cases = judge_u2(ctx, real, rank, bits, cres + pres, peer, bench, cov, dist, distinct)
+                peer.close()
+            else:
+                u2cases = judge_u2(ctx, real, rank, bits, pres, peer, bench, cov, dist, distinct)
         cov["distinct_nontrivial"] = len(distinct)
         # ---- what the run hit: every option letter / variable of the table GENERATED from opt.c, the diagnostics ----
         if rp_case is None:
-            groups = [(cases, res), (rcases, rres), (ucases, [(r[0], r[1], r[2]) for r in ures])]
+            groups = [(cases, res), (rcases, rres), (ucases, [(r[0], r[1], r[2]) for r in ures]),
+                      ([c for c, _ in u2cases], [(r[0], r[1], r[2]) for _, r in u2cases])]
             if moddir:
                 groups += [(mcases, mres), (qcases, qres)]
             hit = {"dsh": set(), "pdcp": set(), "rpdcp": set()}
@@ -1326,6 +1355,84 @@ def run(ctx):
                       "option / variable table by a behavioural probe: harness/consts/optable.c)",
                       "checks/c18.py (generator, dump parser), setpriv, gcc/make"],
         checker_cmd="lake build PdshVerif.Props.C18 && #print axioms on every theorem of Props/C18.lean")
+
+
+def judge_u2(ctx, real, rank, bits, results, peer, bench, cov, dist, distinct):
+    """the connect time-out / the remote pdcp path where they are USED: model (correspondence) and specification (oracle);
+    a case that fails is run once more, alone, before anything is said (the connect cases are a matter of seconds)"""
+    final = []
+    for c, r in results:
+        for attempt in (0, 1):
+            verdicts = judge_u2_case(ctx, real, rank, bits, c, r, peer, bench)
+            if not verdicts or attempt == 1:
+                break
+            r = optuse.run_connect_case(real, peer, c) if c.use == "connect" else optuse.run_path_case(bench, c, 1000 + len(final))
+        for kind, a, b, case in verdicts:
+            if kind == "disagreement":
+                ctx.disagreement(a, b, case)
+            else:
+                ctx.offender(a, b, case)
+        final.append((c, r))
+        cov["evaluations"] += 1
+        dist["use_" + c.use] = dist.get("use_" + c.use, 0) + 1
+        distinct.add(("use", c.use, c.pers, tuple(sorted(c.env0.items())), tuple(c.opts0)))
+    return final
+
+
+def judge_u2_case(ctx, real, rank, bits, c, r, peer, bench):
+    """-> list of ("disagreement" | "offender", signature / what, text, case)"""
+    rc, out, err_, obs = r
+    a = c.argv()
+    out_ = []
+    ml = model_line(real, c, a)
+    sl = spec_line(real, c, None, rank)
+    if c.use == "path":
+        fix = lambda l: re.sub(r"avail=\S*", "avail=" + hx("pcptest"), re.sub(r"prog=\S*", "prog=" + hx(c.dflt_path), l))
+        ml, sl = fix(ml), re.sub(r" dfr=\S*", "", fix(sl))
+    m = ctx.model("opt", ml + "\n", args=["model", bits])[0]
+    case = case_record(ctx, c, a, rc, err_, "use", use=c.use, observed=obs, ckind=getattr(c, "ckind", None))
+    case["opts"], case["env"] = [list(o) for o in c.opts0], c.env0          # as generated (placeholders), for --replay
+    want = "hang" if rc is None else "exit %d" % rc
+    got = ("exit 0" if "term=1" in m.split(" ") else "hang") if m.startswith("ok ") else m
+    if got != want:
+        out_.append(("disagreement", "opt model vs real run (%s in use)" % c.use, "impl `%s` model `%s`" % (want, m), case))
+        return out_
+    if rc is not None and rc < 0:
+        out_.append(("offender", "crash", "%s killed by signal %d" % (c.pers, -rc), case))
+        return out_
+    if rc != 0:
+        return out_
+    mm = m.split(" ")
+    if c.use == "connect":
+        sl += optuse.connect_spec_words(c, obs, real.dflt_ctmo)
+        # correspondence: the limit the model stores decides what is observed
+        lim = int(mm[2])
+        if c.ckind == "slow":
+            cut = not obs["answered"]
+            if (lim != 0 and lim <= optuse.CT_SHORT and not cut) or ((lim == 0 or lim >= optuse.CT_LONG) and cut):
+                out_.append(("disagreement", "opt model vs pdsh -R rsh (connect time-out in use)",
+                             "limit in the model %d s, the host that answers after %.1f s was %sgiven up first"
+                             % (lim, optuse.SLOW, "" if cut else "not "), case))
+        what = "a host answering the connect handshake after %.1f s was %sgiven up before it answered" % (
+            optuse.SLOW, "not " if obs["answered"] else "") if c.ckind == "slow" else \
+            "a host that never answers was %sgiven up, pdsh ended after %.1f s" % ("not " if obs["answered"] else "", obs["wall_tenths"] / 10)
+    else:
+        progs = obs["programs"]
+        if len(progs) != 1 or obs["invocations"] != 2 or obs["arrived"] != 2:
+            out_.append(("disagreement", "%s -R pcptest run (remote program in use)" % c.pers,
+                         "two targets: programs run %s (%d invocations), files arrived on %d" % (progs, obs["invocations"], obs["arrived"]), case))
+            return out_
+        if mm[7] != hx(progs[0]):
+            out_.append(("disagreement", "opt model vs %s -R pcptest (remote program in use)" % c.pers,
+                         "program run on the targets %s, model %s" % (progs[0], unhex(mm[7])), case))
+        sl += " pobs=" + hx(progs[0])
+        what = "the program run on the targets was %s" % progs[0].replace(ctx.scratch, "@SCRATCH@")
+    sp = ctx.model("opt", sl + "\n", args=["spec"])[0]
+    if sp != "ok":
+        for clause in sp.split(" "):
+            out_.append(("offender", clause, "setting not in force where it takes effect: clause `%s`: env %s argv %s: %s"
+                         % (clause, c.env, a[:-1] + ["..."], what), dict(case, clause=clause)))
+    return out_
 
 
 def load_corpus(files):
